@@ -33,8 +33,13 @@ impl W {
         let ctl = case.get(2).unwrap_or(&empty);
         // the first control byte selects the family
         let fam = ctl.first().copied().unwrap_or(0);
-        if fam >= 160 {
+        if fam >= 170 {
             return self.build_snippet(case);
+        }
+        if fam >= 90 {
+            if let Some(b) = self.build_sabotage(case) {
+                return Some(b);
+            }
         }
         let (orig, mutated, k, desc) = self.build(case)?;
         Some(Built {
@@ -42,6 +47,38 @@ impl W {
             mutated: print_program(&mutated, Parens::Minimal),
             kind: mutate::kind_name(k).to_string(),
             desc,
+        })
+    }
+
+    /// the generator itself puts a value of another kind of type at one of the places
+    /// whose context fixes the expected type (operands, arguments, fields, conditions,
+    /// initialisers, results, list elements, assigned values, ...)
+    fn build_sabotage(&self, case: &Case) -> Option<Built> {
+        let empty: Vec<u8> = Vec::new();
+        let s0 = case.first().unwrap_or(&empty);
+        let s1 = case.get(1).unwrap_or(&empty);
+        let ctl = case.get(2).unwrap_or(&empty);
+        let mut rets: Vec<Ty> = SCALAR_TYS.to_vec();
+        rets.push(Ty::Unit);
+        rets.push(Ty::Str);
+        let (orig, n_sites, _) = Gen::new(s0, s1, self.prof.clone()).program_sabotaged(&rets, None);
+        if n_sites == 0 {
+            return None;
+        }
+        let mut c = Choices::new(ctl.get(1..).unwrap_or(&[]));
+        let target = (c.u16() as u32) % n_sites;
+        let (mutated, _, desc) = Gen::new(s0, s1, self.prof.clone()).program_sabotaged(&rets, Some(target));
+        let desc = desc?;
+        let mutated_text = print_program(&mutated, Parens::Minimal);
+        if !(mutated_text.contains("\"zz_sab\"") || mutated_text.contains("7.25f32")) {
+            // the generator threw the expression away after building it
+            return None;
+        }
+        Some(Built {
+            orig: print_program(&orig, Parens::Minimal),
+            mutated: mutated_text,
+            kind: "wrong-type-at-typed-site".into(),
+            desc: format!("site {target} of {n_sites}: {desc}"),
         })
     }
 
@@ -184,7 +221,7 @@ impl Prop for C07P {
         "C07"
     }
     fn rule(&self) -> String {
-        "a well-typed generated program (known to compile) plus exactly one type-breaking edit from a catalogue of 26 AST-level edit kinds (wrong-typed initialiser/condition/argument/result, arity, undefined or out-of-scope name, missing/duplicate/unknown record field, missing match arm, arm after `_`, negated unsigned, arithmetic/remainder/ordering on non-numbers, `?`/accept where forbidden, assignment to a function/constant/field of a scalar, redeclaration, recursive types/constants, return in a constant), applied at a random applicable site; or (3 cases in 8) one of 30 families of self-contained ill-typed statement snippets with randomised types (signedness chains of un-annotated literals, branches/arms/list elements/operands of different types, constructor arity, assignment or return of another type, for over a non-list, logical operators on non-bool, literal against annotation, a variant matched twice while another is missing, only-guarded arms, anonymous records of another width against named or annotated records, type-argument mismatches, wrapper against plain, undeclared types, negated unsigned, distinct named records, fields of scalars, ...) inserted at the top of a generated function or appended as a function of its own; oracle: compile returns a report starting with `Error: Type error`. Every case is non-trivial; distinct by mutated program text".into()
+        "a well-typed generated program (known to compile) plus exactly one type-breaking edit from a catalogue of 32 AST-level edit kinds (patterns with too few / extra binders or unknown variants, names used outside the branch, arm or loop that binds them, wrong-typed initialiser/condition/argument/result, arity, undefined or out-of-scope name, missing/duplicate/unknown record field, missing match arm, arm after `_`, negated unsigned, arithmetic/remainder/ordering on non-numbers, `?`/accept where forbidden, assignment to a function/constant/field of a scalar, redeclaration, recursive types/constants, return in a constant), applied at a random applicable site; or (3 cases in 10) the program generator itself fills one of the places whose context fixes the expected type (any operand, argument, field, condition, initialiser, result, list element or assigned value; typically 20-150 such places per program) with a literal of another kind of type; or (3 cases in 10) one of 30 families of self-contained ill-typed statement snippets with randomised types (signedness chains of un-annotated literals, branches/arms/list elements/operands of different types, constructor arity, assignment or return of another type, for over a non-list, logical operators on non-bool, literal against annotation, a variant matched twice while another is missing, only-guarded arms, anonymous records of another width against named or annotated records, type-argument mismatches, wrapper against plain, undeclared types, negated unsigned, distinct named records, fields of scalars, ...) inserted at the top of a generated function or appended as a function of its own; oracle: compile returns a report starting with `Error: Type error`. Every case is non-trivial; distinct by mutated program text".into()
     }
     fn assumptions(&self) -> Vec<String> {
         vec![
